@@ -452,7 +452,7 @@ def run_gdt(case):
 
 
 def jobs(tier, seed):
-    k = 1 if tier == "quick" else 40
+    k = 1 if tier == "quick" else 14
     js = [{"fn": "vf.props.c11:job", "args": {"n": 400 * k, "seed": seed * 1000 + s}} for s in range(14)]
     js += [{"fn": "vf.props.c11:job_gdt", "args": {"shard": s, "nshards": 2}} for s in range(2)]
     return js
